@@ -177,3 +177,22 @@ def c14Outcome (r : Res Output) : Bool :=
   | .error (.crash _) => false
 
 end Pj
+
+namespace Pj
+
+/-- the membership flags of the environment agree with reachability from the roots -/
+def Env.flagsOK (env : Env) : Prop := ∀ t, (env.info t).member = true ↔ t ∈ memberList env
+
+/-- a real clock: it never runs backwards, and one `calc` does not run across midnight -/
+def Env.clockOK (env : Env) : Prop :=
+  (∀ i j, i ≤ j → env.clock i ≤ env.clock j) ∧ ∀ k, dayOf (env.clock k) = dayOf (env.clock 0)
+
+/-- no user-fixed dates on member leaves (the domain of the backward clauses) -/
+def noFixedDates (env : Env) (f0 : Uid → Fields) : Bool :=
+  (memberList env).all (fun t => !isLeaf env t || ((f0 t).start.isNone && (f0 t).end_.isNone))
+
+/-- predecessors outside the WBS are plain leaves (their own dates stand for themselves) -/
+def outsideLeaves (env : Env) : Bool :=
+  (memberList env).all (fun t => (env.info t).preds.all (fun p => (memberList env).contains p || (env.info p).children.isEmpty))
+
+end Pj
